@@ -16,14 +16,14 @@ def apply(F):
     ensures
         final(out)@.len() == old(out)@.len(),
         /*@C02 C03 C13*/ r is Ok <==> old(out)@.len() <= 255 * {NH} && old(out)@.len() <= 0xffff,
-        /*@C02 C03 C01*/ r is Ok ==> final(out)@ == extract_and_expand_spec({NH}, ikm@, suite_id@, info@, old(out)@.len()),
+        /*@C02 C03 ~C01*/ r is Ok ==> final(out)@ == extract_and_expand_spec({NH}, ikm@, suite_id@, info@, old(out)@.len()),
         /*@ext*/ r is Ok ==> forall|k2: Bytes, s2: Bytes, i2: Bytes| #![trigger extract_and_expand_spec({NH}, k2, s2, i2, old(out)@.len())] k2 =~= ikm@ && s2 =~= suite_id@ && i2 =~= info@ ==> final(out)@ == extract_and_expand_spec({NH}, k2, s2, i2, old(out)@.len()),
 ''')
     F.wrap([], r'pub fn extract_and_expand\b')
 
     F.contract([], r'pub fn labeled_extract\b', ret='r', clauses=f'''
     ensures
-        /*@C02 C03 C07 C01*/ r.0.gv() == labeled_extract_spec({NH}, salt@, suite_id@, label@, ikm@),
+        /*@C02 C03 ~C07 ~C01*/ r.0.gv() == labeled_extract_spec({NH}, salt@, suite_id@, label@, ikm@),
         /*@C02 C03*/ r.1.prk() == r.0.gv(),
         r.0.gv().len() == {NH},
         /*@ext*/ forall|sa: Bytes, s2: Bytes, l2: Bytes, i2: Bytes| #![trigger labeled_extract_spec({NH}, sa, s2, l2, i2)] sa =~= salt@ && s2 =~= suite_id@ && l2 =~= label@ && i2 =~= ikm@ ==> r.0.gv() == labeled_extract_spec({NH}, sa, s2, l2, i2),
@@ -34,7 +34,7 @@ def apply(F):
         ensures
             final(out)@.len() == old(out)@.len(),
             /*@C02 C11 C13*/ r is Ok <==> old(out)@.len() <= 255 * self.lx_nh() && old(out)@.len() <= 0xffff,
-            /*@C02 C11 C03 C01*/ r is Ok ==> final(out)@ == labeled_expand_spec(self.lx_nh(), self.lx_prk(), suite_id@, label@, info@, old(out)@.len()),
+            /*@C02 C11 C03 ~C01*/ r is Ok ==> final(out)@ == labeled_expand_spec(self.lx_nh(), self.lx_prk(), suite_id@, label@, info@, old(out)@.len()),
             /*@ext*/ r is Ok ==> forall|s2: Bytes, l2: Bytes, i2: Bytes| #![trigger labeled_expand_spec(self.lx_nh(), self.lx_prk(), s2, l2, i2, old(out)@.len())] s2 =~= suite_id@ && l2 =~= label@ && i2 =~= info@ ==> final(out)@ == labeled_expand_spec(self.lx_nh(), self.lx_prk(), s2, l2, i2, old(out)@.len())
 '''
     F.contract([r'pub trait LabeledExpand\b'], r'fn labeled_expand\b', ret='r', clauses=LX)
